@@ -496,8 +496,10 @@ class Interp(ExprMixin):
             return HANDLERS['numpy.' + name](self, st, [recv], {}, node)
         if name in ('min', 'max') and isinstance(recv, Tup) and not args and not kwargs:
             return HANDLERS['numpy.' + name](self, st, [recv], {}, node)
-        if name in ('sum', 'min', 'max') and isinstance(recv, Poly):
-            nm = {'sum': 'sum', 'min': 'amin', 'max': 'amax'}[name]
+        if name == 'sum' and isinstance(recv, Poly):
+            return HANDLERS['numpy.sum'](self, st, [recv] + list(args), kwargs, node)
+        if name in ('min', 'max') and isinstance(recv, Poly):
+            nm = {'min': 'amin', 'max': 'amax'}[name]
             return app(nm, recv, *[P(a) for a in args], **kwargs)
         return app('m:' + name, P(recv), *[a if isinstance(a, (Poly, Tup, Const, Slice)) else P(a) for a in args],
                    **kwargs)
